@@ -98,7 +98,7 @@ Proof.
   intros Hs Ho E. unfold format in E. rewrite to_time_ok in E by assumption.
   rewrite strftime_iso in E. apply Ok_inj in E. subst text.
   destruct (civil_facts s o Hs Ho) as (Hy & Hm & Hd & Hdim & HH & HM & HS & Hoff & Hsec).
-  set (c := to_civil s o) in *.
+  set (c := to_civil s o) in *. clearbody c.
   unfold strptime_relaxed, strptime_all. expand_fmt fmt_ISO8601.
   dir pd_Y. lit. dir pd_m. lit. dir pd_d.
   rewrite step_ws by reflexivity. rewrite skip_ws_sp_pad2 by lia.
